@@ -172,6 +172,12 @@ theorem flip_default_identity (a : Int × Int) :
     (flipBItem.op (flipBItem.val flipBItem.dflt) a = a ∧ flipBItem.op a (flipBItem.val flipBItem.dflt) = a) :=
   flipItems_dflt a
 
+/-- `ap` (wave 4, add-an-arithmetic-progression; lazy item asymmetric in its children): `Default` (no element, no first
+    position) is an unconditional two-sided identity. -/
+theorem ap_default_identity (a : ApV) :
+    apItem.op (apItem.val apItem.dflt) a = a ∧ apItem.op a (apItem.val apItem.dflt) = a :=
+  apItem_dflt a
+
 /-- `affHash`: identity on canonical residues (all values the item ever produces). -/
 theorem affHash_default_identity (a : Int × Int × Int) (h : AffCanon a) :
     affHashItem.op (affHashItem.val affHashItem.dflt) a = a ∧ affHashItem.op a (affHashItem.val affHashItem.dflt) = a :=
